@@ -103,7 +103,16 @@ pub struct Case {
 
 fn el_xml(i: usize, e: &El) -> XEl {
     let x = i * 14;
-    let mut el = match e.kind % 8 {
+    let mut el = match e.kind % 10 {
+        // plain SVG text that svgdx leaves as it is (positioned glyph by glyph; mixed content): it carries the author's
+        // classes but is not generated text
+        8 => XEl::new("text").a("x", format!("{x} {} {}", x + 4, x + 8)).a("y", "84").text("abc"),
+        9 => {
+            let mut t = XEl::new("text").a("x", format!("{x}")).a("y", "90");
+            t.kids.push(X::Text("plain ".into()));
+            t.kids.push(X::El(XEl::new("tspan").a("class", e.classes.first().cloned().unwrap_or_else(|| "d-text-monospace".into())).text("mono")));
+            t
+        }
         0 => XEl::new("rect").a("xy", format!("{x} 0")).a("wh", "10 6").a("text", "label"),
         1 => XEl::new("rect").a("xy", format!("{x} 10")).a("wh", "10 6"),
         2 => XEl::new("line").a("xy1", format!("{x} 20")).a("xy2", format!("{} 26", x + 10)),
@@ -155,7 +164,7 @@ fn class_strategy() -> BoxedStrategy<String> {
 }
 
 fn fam_subsets(_t: Tier) -> BoxedStrategy<Case> {
-    (vec((0u8..8, vec(class_strategy(), 0..5)), 1..9), 0..6usize, prop_oneof![3 => Just("default".to_string()), 1 => Just("lightgrey".to_string()), 1 => Just("none".to_string())], prop_oneof![3 => Just("sans-serif".to_string()), 1 => Just("Ubuntu Mono".to_string())], prop::bool::weighted(0.15), prop::bool::weighted(0.9), prop::bool::weighted(0.9), prop::bool::weighted(0.3), prop::bool::weighted(0.15), prop::bool::weighted(0.3))
+    (vec((0u8..10, vec(class_strategy(), 0..5)), 1..9), 0..6usize, prop_oneof![3 => Just("default".to_string()), 1 => Just("lightgrey".to_string()), 1 => Just("none".to_string())], prop_oneof![3 => Just("sans-serif".to_string()), 1 => Just("Ubuntu Mono".to_string())], prop::bool::weighted(0.15), prop::bool::weighted(0.9), prop::bool::weighted(0.9), prop::bool::weighted(0.3), prop::bool::weighted(0.15), prop::bool::weighted(0.3))
         .prop_map(|(els, th, background, font_family, local, auto, rooted, author, debug, nested_ns)| Case { els: els.into_iter().map(|(kind, classes)| El { kind, classes }).collect(), theme: THEMES[th].to_string(), background, font_family, local, auto, rooted, author, debug, nested_ns })
         .boxed()
 }
@@ -274,6 +283,54 @@ impl Property for C20 {
     }
     fn families(&self, tier: Tier) -> Vec<Family<Case>> {
         vec![Family::enumerated("vocabulary-singletons", singletons()), Family::random("subsets", tier.n(20_000, 150_000), fam_subsets)]
+    }
+    /// "nothing is injected when automatic styles are switched off" through the command's own options
+    fn parent_phase(&self, tier: Tier, seed: u64) -> crate::engine::ParentPhase {
+        use crate::props::frontends::{run_cli, run_dir, CLI_BIN};
+        use proptest::strategy::ValueTree;
+        let mut pp = crate::engine::ParentPhase::default();
+        if !std::path::Path::new(CLI_BIN).exists() {
+            pp.failures.push(("machinery:no-binaries".into(), format!("{CLI_BIN} missing: run ./run.sh setup"), serde_json::json!({})));
+            return pp;
+        }
+        let dir = run_dir("c20");
+        let n = tier.n(60, 600);
+        let strat = fam_subsets(tier);
+        const OFF: [&[&str]; 4] = [&["--no-auto-styles"], &["--no-auto-styles", "--use-local-styles"], &["--no-auto-styles", "--theme", "dark", "--background", "grey"], &["--no-auto-styles", "--debug", "--add-metadata"]];
+        for i in 0..n {
+            let mut runner = crate::engine::runner_for(seed, "C20-cli", "off", i);
+            let Ok(tree) = strat.new_tree(&mut runner) else { continue };
+            let mut case = tree.current();
+            case.rooted = true;
+            case.auto = true; // no <config> in the document: the option alone must do it
+            let doc = case_xml(&case);
+            let inp = dir.join(format!("d{i}.xml"));
+            if std::fs::write(&inp, &doc).is_err() {
+                continue;
+            }
+            let flags = OFF[i % OFF.len()];
+            let mut args: Vec<String> = flags.iter().map(|s| s.to_string()).collect();
+            args.push(inp.to_string_lossy().to_string());
+            let r = run_cli(&args, None, &dir, 30.0);
+            pp.evaluations += 1;
+            if r.code != Some(0) {
+                continue;
+            }
+            let out = String::from_utf8_lossy(&r.stdout).to_string();
+            let Ok(tree) = sxml::parse_tree(&out) else { continue };
+            let injected = tree.descendants().iter().any(|e| (e.name == "style" || e.name == "defs") && !is_author(e));
+            pp.nontrivial_hashes.push(crate::engine::hash_bytes(doc.as_bytes()) ^ i as u64);
+            if injected && pp.failures.len() < 3 {
+                pp.failures.push((
+                    format!("c20:cli:injected-although-disabled:{}", flags.join(" ")),
+                    format!("svgdx {} still injected a <style> / <defs> block\n--- document ---\n{doc}\n--- output ---\n{}", flags.join(" "), crate::run::trunc(&out, 3000)),
+                    serde_json::json!({"doc": doc, "flags": flags}),
+                ));
+            }
+        }
+        pp.labels.push("cli:auto-styles-off".into());
+        let _ = std::fs::remove_dir_all(&dir);
+        pp
     }
     fn judge(&self, c: &Case, _strict: bool) -> Verdict {
         let doc = case_xml(c);
